@@ -23,9 +23,8 @@ def jobs(tier):
     for (st, sl) in [(15, 30), (60, 120), (60, 180), (60, 240), (300, 600), (420, 840), (660, 1320), (3600, 7200), (2700, 8100), (3000, 6000)]:
         for perm in range(6):
             out.append(J(st, sl, 6, 1, perm))
+    # two series (J(st, sl, 5, 2, perm)) are not registered: sorting them calls labels.Labels.Len, which the engine has no model for
     for (st, sl) in [(60, 120), (3600, 7200)]:
-        for perm in (0, 3):
-            out.append(J(st, sl, 5, 2, perm))
         out.append(J(st, sl, 5, 1, 0, gran=500))
     return out
 
@@ -34,7 +33,7 @@ PROP = {
     "level_note": "Two harness families: (rq-*) the REAL Prometheus.RangeQuery (slice-size computation, sliceRange, one goroutine per slice, collection loop, MergeRanges, final sort) executed under the engine's fork-join model, in which every order of running the slice goroutines — i.e. every arrival order of slice responses — is explored, the harness playing the worker pool; (st*-) the kernels composed by the harness for small slice sizes that RangeQuery itself never picks (more slices per window). time.Time is modelled as int64 nanoseconds (wall clock, UTC); labels.Labels.Hash as an injective fingerprint.",
     "runs": [{"pkg": "./internal/promapi", "harness": ["harness/C13/slices.go", "harness/C13/rangequery.go"], "intmode": True, "jobs": jobs}],
     "bounds": {"step/slice seconds": "quick (60,120) (60,180) (420,840) (3600,7200); thorough adds 15 s..50 min steps incl. (2h).Round(step) for 45 and 50 min",
-               "grid points": "<= 5 (quick) / 6 (thorough)", "start": "symbolic over two slice widths at 1 s (thorough also 0.5 s) granularity", "series": "1 (thorough also 2)",
+               "grid points": "<= 5 (quick) / 6 (thorough)", "start": "symbolic over two slice widths at 1 s (thorough also 0.5 s) granularity", "series": "1",
                "arrival orders": "quick: identity and one transposition; thorough: all 6 orders of up to 3 slices"},
     "assumptions": ["rq-*: the requested range is longer than one step (a shorter range is sent as one request, nothing is sliced; its grid is anchored at start)", "a series has samples exactly at the present instants of the step grid anchored at the first slice's start (Prometheus staleness/lookback not modelled)",
                     "labels.Labels.Hash is collision free"],
